@@ -196,6 +196,8 @@ class Translator:
         return t.get("desugaredQualType") or t.get("qualType")
 
     def record_of_type(self, q):
+        if "::" in q.replace("rkcommon::math::", "").replace("rkcommon::", "") and "<" in q:
+            q = self.desugar(q)
         key = norm_type(q.replace("*", ""))
         rid = self.rec_by_key.get(key)
         if rid is None and key in self.aliases:
@@ -208,7 +210,25 @@ class Translator:
                 rid = cands[0]
         return rid
 
+    def desugar(self, q, depth=0):
+        """Resolve `typename X::Name` member typedefs (possibly nested, possibly inside template arguments)."""
+        if depth > 8:
+            return q
+        def repl(m):
+            owner_txt, nm = m.group(1), m.group(2)
+            owner = self.record_of_type(self.desugar(owner_txt, depth + 1))
+            if owner is not None and (owner, nm) in self.rec_aliases:
+                return self.desugar(self.rec_aliases[(owner, nm)], depth + 1)
+            return m.group(0)
+        # innermost-first: an owner without nested '::Name' suffixes after template close
+        prev = None
+        while prev != q:
+            prev = q
+            q = re.sub(r"(?:typename\s+)?((?:rkcommon::math::|rkcommon::)?\w+<(?:[^<>]|<(?:[^<>]|<[^<>]*>)*>)*>)::(\w+)", repl, q, count=1)
+        return q
+
     def lean_type(self, q):
+        q = self.desugar(q)
         q0 = q
         q = re.sub(r"\b(const|volatile|struct|class)\b", "", q).replace("&", "").strip()
         if q.endswith("*"):
@@ -263,7 +283,7 @@ class Translator:
             ft = self.lean_type(self.qt(f["type"]))
             self.struct_fields[name].append((f["name"], ft))
             lines.append("  %s : %s" % (self.ident(f["name"]), ft))
-        self.struct_out.append("\n".join(lines) + "\nderiving Repr, DecidableEq\n")
+        self.struct_out.append("\n".join(lines) + "\nderiving Repr, DecidableEq, Inhabited\n")
         self.meta.append(dict(kind="struct", lean=name, cxx=key, fields=[f["name"] for f in fields]))
         return name
 
@@ -425,6 +445,8 @@ class Translator:
             raise Unsupported("binop " + op)
         if k == "UnaryOperator":
             op = n["opcode"]
+            if op == "*" and self.strip(inner[0])["kind"] == "CXXThisExpr":
+                return "self"
             a = self.expr(inner[0], env)
             if op == "-":
                 return "(-%s)" % a
@@ -654,7 +676,8 @@ class Translator:
                 rhs = self.expr(e["inner"][2], env)
                 d = self.decls.get(r["id"])
                 if d is not None and not d.get("isImplicit"):
-                    raise Unsupported("user-provided operator=")
+                    cur = ".".join([root] + path)
+                    return root, self.update(root, path, "(%s %s %s)" % (self.translate(d), cur, rhs))
                 return root, self.update(root, path, rhs)
             if nm in ("operator+=", "operator-=", "operator*=", "operator/=") and r["id"] in self.decls:
                 d = self.decls[r["id"]]
@@ -769,24 +792,50 @@ class Translator:
             return True
         return any(self.contains_return(c) for c in s.get("inner", []) if isinstance(c, dict))
 
+    def assign_root(self, s, env):
+        """Root variable an expression statement assigns to (without translating the value), or None."""
+        e = self.strip(s)
+        k = e["kind"]
+        try:
+            if k == "BinaryOperator" and e["opcode"] == "=":
+                return self.lvalue_root(e["inner"][0], env)[0]
+            if k == "CompoundAssignOperator":
+                return self.lvalue_root(e["inner"][0], env)[0]
+            if k == "CXXOperatorCallExpr":
+                r = self.callee_decl(e["inner"][0])
+                if r and r.get("name", "") in ("operator=", "operator+=", "operator-=", "operator*=", "operator/="):
+                    return self.lvalue_root(e["inner"][1], env)[0]
+            if k == "CXXMemberCallExpr":
+                me = self.strip(e["inner"][0])
+                mid = me.get("referencedMemberDecl")
+                if mid in self.decls and self.is_mutating(self.decls[mid]):
+                    return self.lvalue_root(me["inner"][0], env)[0]
+        except Unsupported:
+            return None
+        return None
+
     def assigned_vars(self, s, env):
         res = set()
         if s is None:
             return res
         if s["kind"] == "CompoundStmt":
+            env2 = dict(env)
+            local_names = set()
             for c in s.get("inner", []):
-                res |= self.assigned_vars(c, env)
-            return res
+                if c.get("kind") == "DeclStmt":
+                    for v in c.get("inner", []):
+                        if v.get("kind") == "VarDecl":
+                            env2[v["id"]] = "\0local:" + v["name"]
+                            local_names.add("\0local:" + v["name"])
+                res |= self.assigned_vars(c, env2)
+            return {r for r in res if r not in local_names}
         if s["kind"] == "IfStmt":
             for c in s["inner"][1:]:
                 res |= self.assigned_vars(c, env)
             return res
-        try:
-            a = self.assign_stmt(s, env)
-        except Unsupported:
-            a = None
+        a = self.assign_root(s, env)
         if a:
-            res.add(a[0])
+            res.add(a)
         return res
 
     # ---------------------------------------------------------------- functions
@@ -849,16 +898,20 @@ class Translator:
                 if f.startswith("padding") or f.startswith("pad") or f.startswith("align"):
                     fs[f] = "(0 : α)"
                 else:
-                    raise Unsupported("constructor %s leaves field %s uninitialised" % (name, f))
+                    # default-initialised member (indeterminate value in C++): an arbitrary fixed placeholder;
+                    # theorems can only go through when the body assigns it before use
+                    fs[f] = "default"
             init = "{ " + ", ".join("%s := %s" % (self.ident(f), fs[f]) for f in fields) + " }"
             if stm:
                 b = "let self : %s := %s\n  %s" % (selfT, init, self.stmts(stm, env, "self"))
             else:
                 b = init
-            self.out.append("def %s %s : %s :=\n  %s\n" % (name, " ".join(sig), selfT, b))
+            self.out.append("def %s {α : Type} [CNum α] %s : %s :=\n  %s\n" % (name, " ".join(sig), selfT, b))
             return name
         rt = self.ret_type(d)
-        mutating = is_method and self.is_mutating(d) and norm_type(rt) == "void"
+        returns_self = (is_method and self.is_mutating(d) and self._ret_type_text(d).rstrip().endswith("&")
+                        and rid is not None and self.record_of_type(rt) == rid)
+        mutating = is_method and self.is_mutating(d) and (norm_type(rt) == "void" or returns_self)
         if mutating:
             RT = selfT
             b = self.stmts(body.get("inner", []), env, "self")
@@ -868,7 +921,7 @@ class Translator:
                 raise Unsupported("non-void mutating method " + name)
             # by-value / local mutation of parameters is allowed (shadowing lets)
             b = self.stmts(body.get("inner", []), env, "()" if RT == "Unit" else None)
-        self.out.append("def %s %s : %s :=\n  %s\n" % (name, " ".join(sig), RT, b))
+        self.out.append("def %s {α : Type} [CNum α] %s : %s :=\n  %s\n" % (name, " ".join(sig), RT, b))
         return name
 
     def body_mutates_self(self, body, env):
@@ -890,7 +943,7 @@ class Translator:
     def render(self, namespace, header=""):
         return ("-- GENERATED by tools/cpp2lean.py from /repo's current sources — do not edit.\n" + header +
                 "import RkVerif.Sem.CNum\nset_option linter.unusedVariables false\nnamespace %s\nopen RkVerif\n\n" % namespace +
-                "\n".join(self.struct_out) + "\nvariable {α : Type} [CNum α]\n\n" + "\n".join(self.out) +
+                "\n".join(self.struct_out) + "\n" + "\n".join(self.out) +
                 "\nattribute [gen_simp] " + " ".join(m["lean"] for m in self.meta if m["kind"] == "def") + "\n" +
                 "\nend %s\n" % namespace)
 
